@@ -64,10 +64,11 @@ PROPS = {
         assumptions=["Ord on interned values is consistent with Eq (derived impls)", "Symbol ids fit usize/u32 (tables < 2^32 entries)"],
     ),
     'C18': dict(
+        translators=['extract_ident_rule.py'],
         streams=[dict(name='path', quick=4000, thorough=200000)],
         rule="exhaustive: every single-segment string of length <=4 (quick) / <=6 (thorough) over the class-representative alphabet {a,Z,_,7,r,#,:,space,e-acute} through Path::from_segments; plus random segment lists, module paths (separators ::, :, :::) and replacement tables (0-3 rows, overlapping rows) through Path::new / new_with_replace with panics caught; accessors ident/namespace/Display observed on every constructed path. Non-trivial: the case reaches identifier validation (not the empty list).",
         trusted_base=COMMON_TB,
-        assumptions=["str::split(\"::\"), strip_prefix, is_ascii behave as their documentation says (modelled in SIM.Model.Path)"],
+        assumptions=["str::split(\"::\"), strip_prefix, is_ascii behave as their documentation says (modelled in SIM.Model.Path)", "translators/extract_ident_rule.py reads is_rust_identifier by one regular expression over its whole body: any other shape yields an empty table and breaks extracted_ident_ok"],
     ),
     'C06': dict(
         translators=['extract_codec_tags.py'],
